@@ -171,6 +171,14 @@ pub(crate) mod alloc {
 
         /// Compute a FFT, modifying the vector in place.
         fn fft_in_place(&self, coeffs: &mut Vec<BlsScalar>) {
+            // A polynomial longer than the domain is evaluated on the subgroup
+            // by folding its high coefficients (x^size = 1 there) instead of
+            // silently dropping them.
+            let size = self.size();
+            if coeffs.len() > size {
+                let (low, high) = coeffs.split_at_mut(size);
+                high.iter().enumerate().for_each(|(i, c)| low[i % size] += c);
+            }
             coeffs.resize(self.size(), BlsScalar::zero());
             best_fft(coeffs, self.group_gen, self.log_size_of_group)
         }
